@@ -306,3 +306,15 @@ _N = {
 }
 for _p, _t in _N.items():
     PROPS[_p]["rule"] = PROPS[_p]["rule"] + _t
+
+# ... and after the O series
+_O = {
+ "C01": " scenario (O): LMTP early statuses that cannot be written (WriteTimeout, net.Pipe) while the message is still arriving.",
+ "C02": " c02 also (O): backends that panic 0, 3 or 30 octets into a message whose rest is in the same raw read.",
+ "C06": " c06 also (O): a backend that consumes the message with io.Copy (plan read size 32768).",
+ "C09": " cli also (O): initial responses of 300 to 1400 octets against refusing, accepting, continuing and garbage-answering servers.",
+ "C13": " c13x also (O): a second MAIL between two accepted RCPTs, DATA and BDAT, plain and per-recipient backends.",
+ "C19": " c19 also (O): unbroken arguments of 300 to 1900 octets in the greeting, MAIL and RCPT.",
+}
+for _p, _t in _O.items():
+    PROPS[_p]["rule"] = PROPS[_p]["rule"] + _t
